@@ -264,7 +264,7 @@ func makeFieldOptValueHandling(h configHandling) func(...string) Option {
 			if o.fieldHandlingTree == nil {
 				o.fieldHandlingTree = newFieldHandlingTree()
 			}
-			o.fieldHandlingTree.merge(table, PathSep(o.pathSep))
+			o.fieldHandlingTree.merge(table, PathSep(o.pathSep), MaxIdx(o.maxIdx))
 		}
 	}
 }
